@@ -12,8 +12,9 @@ ID = "C03"
 LEVEL = "exploration"
 DESIGN_REF = "DESIGN.md §4 C03"
 RULE = (
-    "A case = (which of 8 secret positions hold a value: root, nested sub-configurations at depth 1-3, a config "
-    "type and a schema below it, items of a list of schemas and of a list of config types; a key-file plan: root "
+    "A case = (which of 10 secret positions hold a value: root, nested sub-configurations at depth 1-3, a config "
+    "type and a schema below it, items of a list of schemas and of a list of config types, items of a typed list of "
+    "secrets, entries of a typed dict of secrets in a nested configuration; a key-file plan: root "
     "constructor argument or none, _key_filename assignments to sub-configurations at three points of the "
     "history (before the values, before the save, after a first save), class-level key files of the config "
     "types, none => default key file in the sandbox HOME; non-empty plaintexts (short, long, Unicode, whitespace, "
@@ -33,7 +34,7 @@ ASSUMPTIONS = [
     "a key file assigned to a *schema* sub-configuration does not survive a load that replaces that "
     "sub-configuration (recorded known finding); such plans are labelled so the signature stays narrow",
 ]
-REQUIRED = ["plan:root-key", "plan:default", "plan:sub-assign", "plan:class-key", "plan:rekey", "secret:root", "secret:depth3",
+REQUIRED = ["secret:typed-list-item", "secret:typed-dict-entry", "plan:root-key", "plan:default", "plan:sub-assign", "plan:class-key", "plan:rekey", "secret:root", "secret:depth3",
             "secret:configtype", "secret:list-item", "secret:ct-list-item", "default-key-must-not-exist"] + ["fmt:" + f for f in trees.FORMATS]
 LEVEL_TEXT = (
     "Generated key-file plans x secret placements x formats with a model of key inheritance, an independent "
@@ -43,7 +44,7 @@ LEVEL_TEXT = (
 LEVEL_NOTE = "Trusted: CPython, Hypothesis, vlib/aesref.py, json/yaml/pickle/bson decoders, sys.audit open events."
 TECHNIQUE = "model-based property testing (Hypothesis): key-inheritance model + independent decoder/cipher + audited file access"
 
-POSITIONS = ["s0", "a.s1", "a.b.s2", "a.b.c.s3", "t.s4", "t.u.s5", "items[].s6", "titems[].s7"]
+POSITIONS = ["s0", "a.s1", "a.b.s2", "a.b.c.s3", "t.s4", "t.u.s5", "items[].s6", "titems[].s7", "slist[]", "a.sdict{}"]
 SUBCONFIGS = ["a", "a.b", "a.b.c", "t", "t.u"]
 B64 = set("ABCDEFGHIJKLMNOPQRSTUVWXYZabcdefghijklmnopqrstuvwxyz0123456789+/=")
 
@@ -74,7 +75,7 @@ def strategy(tier):
         "assign": st.lists(st.tuples(st.sampled_from(SUBCONFIGS), st.sampled_from(["k1", "k2", "k3"]), st.sampled_from(["early", "before_save", "after_save"])), max_size=3),
         "class_keys": st.fixed_dictionaries({"T": st.sampled_from([None, None, "kT"]), "TI": st.sampled_from([None, None, "kTI"])}),
         "rekey_root": st.sampled_from([None, None, "kroot2"]),
-        "methods": st.lists(st.sampled_from(["aes", "xor", "best"]), min_size=8, max_size=8),
+        "methods": st.lists(st.sampled_from(["aes", "xor", "best"]), min_size=10, max_size=10),
     })
 
 
@@ -103,6 +104,8 @@ def _build(cc, case, d):
     tisch.s7 = sec(7)
     TI = cc.make_type(tisch, "TI", module=__name__, key_filename=_kp(d, case["class_keys"]["TI"]))
     root.titems = cc.ListField(TI)
+    root.slist = cc.ListField(sec(8))            # a typed list of secrets
+    root.a.sdict = cc.DictField(cc.StringField(), sec(9))   # a typed dict of secrets in a nested configuration
     return root, T, TI
 
 
@@ -136,6 +139,10 @@ def _model_key(case, d, owner, assigned):
 
 
 def _owner(position, idx=None):
+    if position == "slist[]":
+        return ""
+    if position == "a.sdict{}":
+        return "a"
     if position.startswith("items[]"):
         return "items[%d]" % idx
     if position.startswith("titems[]"):
@@ -170,6 +177,10 @@ def _strings(t):
 
 
 def _lookup(tree, position, idx):
+    if position == "slist[]":
+        return tree["slist"][idx]
+    if position == "a.sdict{}":
+        return tree["a"]["sdict"]["k%d" % idx]
     node = tree
     for part in position.split("."):
         if part.endswith("[]"):
@@ -237,6 +248,21 @@ def run_case(case, R):
             pos = POSITIONS[pi]
             text = "%d:%s" % (k, text)  # distinct per position
             idx = k % n_items if "[]" in pos else None
+            if pos == "slist[]":
+                cur = list(cfg.slist or [])
+                idx = len(cur)
+                cfg.slist = cur + [text]
+                secrets[(pos, idx)] = text
+                R.label("secret:typed-list-item")
+                continue
+            if pos == "a.sdict{}":
+                idx = k
+                cur = dict(cfg.a.sdict or {})
+                cur["k%d" % idx] = text
+                cfg.a.sdict = cur
+                secrets[(pos, idx)] = text
+                R.label("secret:typed-dict-entry")
+                continue
             secrets[(pos, idx)] = text
             if pos.startswith("items[]"):
                 cfg.items[idx].s6 = text
@@ -351,7 +377,11 @@ def run_case(case, R):
         else:
             for (pos, idx), text in secrets.items():
                 try:
-                    if pos.startswith("items[]"):
+                    if pos == "slist[]":
+                        got = cfg2.slist[idx]
+                    elif pos == "a.sdict{}":
+                        got = cfg2.a.sdict["k%d" % idx]
+                    elif pos.startswith("items[]"):
                         got = cfg2.items[idx].s6
                     elif pos.startswith("titems[]"):
                         got = cfg2.titems[idx].s7
